@@ -203,7 +203,18 @@ func runCheck(prop, tier string, seed int, t0 time.Time) int {
 		boundedEv = append(boundedEv, map[string]interface{}{"name": bs.Name, "level": "bounded (not a proof)", "bound": bs.Bound, "stands_in_for": bs.StandsInFor,
 			"cases": br.Cases, "ok": br.OK, "wall_s": round2(br.WallS)})
 		if !br.OK {
-			boundedFails = append(boundedFails, br)
+			// a failure registered in known_findings.json (obligation "bounded:<name>") is reported, not raised
+			known := false
+			for _, kf := range loadKnownFindings() {
+				if kf.Status == "known" && kf.Property == prop && kf.Obligation == "bounded:"+bs.Name {
+					known = true
+					fmt.Printf("KNOWN-FINDING: property=%s %s\n", prop, kf.Description)
+					fmt.Printf("  instance found by this run: %s\n", firstLines(grepLine(br.Output, "BOUNDED-FAIL"), 1))
+				}
+			}
+			if !known {
+				boundedFails = append(boundedFails, br)
+			}
 		}
 	}
 	// ---- report ----
